@@ -29,3 +29,10 @@ func TestDebugServe(t *testing.T) {
 	v := judgeHistory(o)
 	fmt.Println("verdict", v.OK, v.Detail, v.Classes)
 }
+
+func TestDebugTiming(t *testing.T) {
+	if os.Getenv("VERIF_C20_DEBUG") == "" {
+		t.Skip()
+	}
+	H = nil
+}
